@@ -11,7 +11,8 @@ FAMILIES = [
     # the pool) and that an accepted remove-units burns exactly what it says (chk c02.burn)
     {"name": "unlock", "family": "unlock", "group": "perm", "driver": "drv_unlock", "n_quick": 30000, "n_thorough": 300000, "seeds_thorough": 2},
 ]
-RULE = ("amm: random L1 histories (60 ops each: create/add sym+asym/remove bps+units/swap 3 routes/bucket/epoch/endblock with LPPD and "
+RULE = ("one add in eight is signed under the all-upper-case bech32 spelling of the same account (model told the account); ammdir D28: pools with 100 / 101 / 102 providers decommissioned next to a pool sorting after them; the state dump reads pools and providers with a raw prefix iterator, not through the keeper's list getters; "
+        "amm: random L1 histories (60 ops each: create/add sym+asym/remove bps+units/swap 3 routes/bucket/epoch/endblock with LPPD and "
         "depth rewards/decommission/policy changes) on the real clp keeper; ammdir: directed histories of DESIGN 4/C02; "
         "after every op the full state is compared with the model and Spec.C01.unitsOK is judged on the implementation's dump; "
         "unlock (family of C15, lock periods 0..10^6, unlock/cancel/remove/add by 4 providers + a whale in 2 pools, 160 messages per history): "
